@@ -300,6 +300,12 @@ func c13(r *core.Run) {
 				}) {
 					o.Fail(p.InstrPos(c), "weight argument %s is not the node's configured Weight", core.Describe(w))
 				}
+				// on every path: no constant may stand in for the configured weight (a weight of 0 drains a node)
+				for _, leaf := range gxPhiLeaves(core.Strip(core.Forward(w))) {
+					if _, isConst := core.ConstInt(core.Strip(core.Forward(leaf))); isConst {
+						o.Fail(p.InstrPos(c), "on some path the node is added with the constant weight %s instead of its configured Weight: a node configured with weight 0 (drained) receives keys", core.Describe(leaf))
+					}
+				}
 			}
 		}
 	})
